@@ -332,8 +332,8 @@ Definition builtin_ok (b : list string) : bool := Nat.eqb (List.length b) 3 && n
 (* ------------------------------------------------------------------ the writers' actual tables (Gen/Gen_Keywords.v) *)
 Require Import UPV.Gen.Gen_Keywords.
 
-(* [kws] is the writer's self.pddl_keywords: GENERAL plus the optional tables its __init__ selected (and, because
-   __init__ updates the module-level set in place, possibly tables selected by EARLIER writers of the process) *)
+(* [kws] is the writer's self.pddl_keywords: (a copy of) GENERAL plus the tables its __init__ adds; the theorems
+   cover every subset of Gen_Keywords.pddl_all_keywords *)
 Definition pddl_cfg (kws : list string) : cfg :=
   mk_cfg kws pddl_start_class pddl_keep_class pddl_repl pddl_initial_letter pddl_default_letter true.
 Definition anml_cfg : cfg :=
